@@ -30,6 +30,7 @@ Again ==
     /\ results' = Append(results, [root |-> RootId, data |-> ValData(heap, RootId), ids |-> ReachIds(heap, RootId)])
     /\ status' = "running" /\ stack' = <<Frame(<<>>, work)>> /\ calls' = <<>> /\ evlog' = <<>>
     /\ cache' = IF Mut("EvalSharesHeap") THEN cache ELSE <<>>     \* (mutation: the evaluation cache survives the evaluation)
+    /\ taint' = {}
     /\ UNCHANGED <<work, heap, reqsafe, vars>>
 
 \* the user mutates EVERY container of an earlier result (appends an element / sets a new key)
@@ -42,7 +43,7 @@ Mutate ==
           IN /\ tgt # {}
              /\ heap' = Append([id \in 1..Len(heap) |-> IF id \in tgt THEN [heap[id] EXCEPT !.ch = Append(@, <<SKey("mutated"), new>>)]
                                                         ELSE heap[id]], VAtom(Atom("i", "99")))
-    /\ UNCHANGED <<work, stack, cache, calls, evlog, reqsafe, status, vars, results>>
+    /\ UNCHANGED <<work, stack, cache, calls, evlog, reqsafe, taint, status, vars, results>>
 
 MNext == BuildStep \/ StartEval \/ EvalStep \/ Again \/ Mutate
 MSpec == MInit /\ [][MNext]_allvars /\ WF_allvars(EvalStep)
